@@ -162,6 +162,41 @@ func registerNatives2(e *Engine) {
 		return nil
 	}
 
+	// sync.Pool: a LIFO of what was Put (a valid behaviour; the real pool may also drop items)
+	n["(*sync.Pool).Get"] = func(ex *Exec, site ssa.Instruction, args []Value) Value {
+		p := args[0].(Ptr)
+		if p.Obj.Ghost == nil {
+			p.Obj.Ghost = map[string]Value{}
+		}
+		l, _ := p.Obj.Ghost["pool"].(*[]Value)
+		if l != nil && len(*l) > 0 {
+			v := (*l)[len(*l)-1]
+			*l = (*l)[:len(*l)-1]
+			return v
+		}
+		newFn, _ := ex.loadPath(p.Obj, nil).(*Struct)
+		if newFn != nil {
+			if f, ok := newFn.F[len(newFn.F)-1].(*Func); ok && f != nil {
+				return ex.invoke(f, nil, site)
+			}
+		}
+		return (*Iface)(nil)
+	}
+	n["(*sync.Pool).Put"] = func(ex *Exec, site ssa.Instruction, args []Value) Value {
+		p := args[0].(Ptr)
+		ex.checkWritable(p.Obj.Frozen, p.Obj.ID, "sync.Pool.Put into "+p.Obj.describe())
+		if p.Obj.Ghost == nil {
+			p.Obj.Ghost = map[string]Value{}
+		}
+		l, _ := p.Obj.Ghost["pool"].(*[]Value)
+		if l == nil {
+			l = &[]Value{}
+			p.Obj.Ghost["pool"] = l
+		}
+		*l = append(*l, args[1])
+		return nil
+	}
+
 	// ---- internal/bytealg (assembly in the real library) ----
 	concBytes := func(ex *Exec, v Value) ([]byte, bool) {
 		switch x := v.(type) {
